@@ -3,6 +3,7 @@ import CfbVerif.Drv.Api
 import CfbVerif.Spec.Check
 import CfbVerif.Phys.Load
 import CfbVerif.Phys.OpenBack
+import CfbVerif.Phys.MiniContent
 /-! `driver phys`: API histories on the two-level model; prints result, image hash and caches. -/
 namespace CfbVerif.Drv.Phys
 open CfbVerif.Phys CfbVerif.Dir CfbVerif.Drv CfbVerif.Drv.Api
@@ -23,6 +24,8 @@ def tail (ps : PState) (status : PhysStatus) (fit : Bool := true) : String :=
     let p := ps.p
     -- the hypothesis `MiniFit` of `C02_reopens`, evaluated on every state the replay reaches
     if fit && !miniFitB p then "PHYSFAIL the model state violates MiniFit (MiniFAT not trimmed / beyond its chain / beyond the mini stream)" else
+    -- the range premise of the mini-chain content theorems (`mini_in_root`): the mini stream's chain covers its length
+    if fit && !rootCoverB p then "PHYSFAIL the model state's mini stream is longer than its chain (rootCoverB)" else
     s!"P {img.size} {fnv64 img} | C {p.numSectors} {p.fat.size} {showList p.free} {p.miniFat.size} {showList p.freeMini} {p.dirLen} {p.miniFatStart} {p.rootStart} {p.rootLen}"
 
 def stepLine (st : St) (line : String) : IO (St × String) := do
